@@ -34,6 +34,8 @@ pub struct GenCfg {
     pub delete_heavy: bool,
     /// make every commit change the logical state (a unique marker is written first)
     pub marker: bool,
+    /// now and then a value of 9-12 MiB
+    pub huge_value: bool,
 }
 
 impl GenCfg {
@@ -85,6 +87,7 @@ impl GenCfg {
             ro_mutators: false,
             delete_heavy,
             marker: false,
+            huge_value: false,
         }
     }
 }
@@ -131,6 +134,11 @@ impl Gen {
 
     fn val(&mut self) -> Blob {
         let ps = self.cfg.pagesize as u32;
+        if self.cfg.huge_value && self.r.chance(1, 400) {
+            // more than one growth step in a single commit
+            let tag = self.fresh_tag();
+            return Blob::Pat { tag, len: (9 << 20) + self.r.below(3 << 20) as u32 };
+        }
         let c = self.r.weighted(&self.cfg.w_val);
         let len = match c {
             0 => 0,
@@ -159,7 +167,7 @@ impl Gen {
     }
 
     fn via(&mut self) -> Via {
-        *self.r.pick(&[Via::Vec, Via::Vec, Via::Slice, Via::Bytes, Via::Str])
+        *self.r.pick(&[Via::Vec, Via::Vec, Via::Slice, Via::Bytes, Via::Str, Via::String])
     }
 
     /// an existing key of the bucket at `path` in `view` (any kind), if any
@@ -261,6 +269,16 @@ impl Gen {
                         return Some(Step::GetOrCreate { path: vec![], name: Blob::Raw(b"zz-m".to_vec()), via: Via::Vec });
                     }
                     return Some(Step::Commit);
+                }
+                if self.cfg.readers && rw {
+                    // readers may come and go while the writer is open
+                    let c = self.r.below(100);
+                    if c < 6 && (ctx.n_readers as u32) < self.cfg.max_readers {
+                        return Some(Step::OpenReader);
+                    }
+                    if c < 10 && ctx.n_readers > 0 {
+                        return Some(Step::CloseReader { idx: self.r.below(ctx.n_readers as u64) as u32 });
+                    }
                 }
                 self.steps_left_in_tx -= 1;
                 Some(self.op(ctx.view, rw))
@@ -532,7 +550,7 @@ impl Gen {
             9 => Step::Scan { path, extra_next: self.r.below(3) as u32 },
             10 => {
                 let key = self.probe_key(view, &path);
-                Step::Seek { path, key, take: self.r.range(0, 40) as u32 }
+                Step::Seek { path, key, take: self.r.range(0, 40) as u32, warm: if self.r.chance(1, 3) { self.r.range(1, 30) as u32 } else { 0 } }
             }
             11 => {
                 let lo = self.probe_key(view, &path);
